@@ -4,12 +4,14 @@ import re
 
 from .lib import (PLUMBING, callee_allow, callers, closure_args_of_call, const_int, http_error_ctors_on_error_path, operand_local, result_split, status_const_of_ctor, try_edges)
 from .lib_c10 import (HANDLER_CALL, MEMBER_FROM_REQUEST, TOP_FROM_REQUEST, census_owners, closure_site, extraction_region, generic_route_handler, impl_fns,
-                      load_panic_table, norm_id, panic_sites, result_guards, tuple_arity, upvar_fields, upvar_origin, upvar_params)
+                      load_panic_table, norm_id, panic_sites, result_guards, tuple_arity, upvar_fields, upvar_origin, upvar_params,
+                      compatible, edge_variant_sets, path_states)
 
 LEVEL = "other"
 TECHNIQUE = ("static analysis: edge dominance of the handler call by the extractor's Ok edge, error-preserving chain over the tuple extractors, "
              "who-constructs census of HttpError and a panic-site census over the call-graph region between route lookup and the handler, "
-             "16-cell evaluation of the content-type gate (switches on the two discriminants and eq-tests of them, also through `!` and named flags)")
+             "16-cell evaluation of the content-type gate from path conditions (what every path through the body loader learnt from switches on the two discriminants, `matches!` guards "
+             "and eq-tests, which parser it went through, whether it returns Ok or Err), on the normalised view")
 LEVEL_TEXT = ("Decides on the type-checked MIR of the current tree: (R1) the only call of a handler function (HttpHandlerFunc::handle_request) in the crate is dominated by the "
               "Continue edge of `?` on RequestExtractor::from_request's result, receives that edge's payload, and the Break edge reaches no handler call; "
               "(R2) every tuple impl of RequestExtractor calls exactly one member from_request per tuple position with this invocation's rqctx/request and its "
@@ -20,7 +22,7 @@ LEVEL_TEXT = ("Decides on the type-checked MIR of the current tree: (R1) the onl
               "(R4) every potential panic site in that region (panic!/unreachable!/unimplemented!/assert!, unwrap/expect family, Index calls, listed panicking std APIs, "
               "MIR Assert terminators) is on a reviewed table with a reason, keyed by (enclosing named function — closures and async bodies count for the function they are written in —, kind, callee) with multiplicity; (R5) for all 16 pairs of "
               "(endpoint's expected body content type, request's content type) the typed-body decoder is reached iff the pair is (Json,Json) or (UrlEncoded,UrlEncoded), "
-              "each with its own parser, and every other pair returns without building a TypedBody. "
+              "each with its own parser (every Ok return of such a pair went through that parser and a TypedBody literal), and every path compatible with any other pair returns Err without reaching a parser. "
               "Not decided: what serde / serde_json / serde_urlencoded / derived Deserialize impls do with each malformed value (third-party; trusted to return Err), "
               "panics inside third-party callees, and hyper's delivery of the response.")
 LEVEL_NOTE = ("Trusts rustc MIR construction and const evaluation, the fact extractor, the engine's dominators/slices, futures::try_join!'s expansion as analysed, "
@@ -31,7 +33,8 @@ EXPLANATION = ("Static rules over MIR facts of the current /repo tree: DOM (hand
                "dominance of its Ok aggregate by each member's not-is_err edge), WHO-CONSTRUCTS census of HttpError constructor calls and aggregates over the "
                "crate-local call-graph closure of the extraction entry points (class-hierarchy resolution restricted to traits defined in the crate), CENSUS of potential "
                "panic sites in the same region against tables/c10_panics.txt, and a finite evaluation of the content-type gate: for each of the 4x4 variant pairs the CFG of "
-               "http_request_load_body is pruned at every switch / eq-comparison on the two discriminants and reachability of each parser and of the TypedBody aggregate is compared with the specification.")
+               "http_request_load_body (normalised view: combinators desugared, helpers inlined) is explored path-sensitively; each path carries the facts established by switches / guards / eq-comparisons on the two "
+               "discriminants, the known variants of Result values (so an Err value consumed by a later `.map` / `?` stays a refusal), the parser sites passed and the variant returned; each cell is compared with the specification over the paths it is compatible with.")
 TRUSTED = ["rustc nightly MIR construction + const evaluation", "mirfacts extractor", "rules/engine.py dominators, pruning and slices",
            "futures-util try_join! expansion (MaybeDone::take_output is only unwrapped after poll returned Ready)",
            "serde: Deserializer::deserialize_<kind> is chosen by the target Rust type, VariantAccess methods by the variant the input names",
@@ -156,7 +159,7 @@ def _flag_cleared_blocks(fn, site):
 def _check_try_join(ctx, R, key, body, cl, members):
     """cl: closure passed to poll_fn inside `body`.  Its Ok(..) must be dominated by the
     not-is_err edge of every captured member future; each captured field is one member call."""
-    ds = ctx.ds
+    ds = ctx.dsn
     n = len(members)
     par, st = closure_site(ds, cl)
     caps = len(st["rv"]["ops"]) if st else -1
@@ -209,7 +212,7 @@ def _check_try_join(ctx, R, key, body, cl, members):
 def r2_tuples(ctx):
     R = ctx.rule("C10.R2", "each tuple impl of RequestExtractor calls one member from_request per position with this invocation's rqctx/request, and the Result it returns "
                  "derives from every member's result through error-preserving operations only (no member error is dropped or replaced)", floor=21)
-    ds = ctx.ds
+    ds = ctx.dsn
     impls = impl_fns(ds, r"^extractor::common::RequestExtractor$", "from_request")
     ctx.check(R, "tuple-impls", len(impls) >= 4, "RequestExtractor is implemented for %s" % [i["self"] for i, _ in impls], None, nontrivial=False)
     for i, top in impls:
@@ -401,12 +404,20 @@ URL_PARSER = r"form_urlencoded::parse$|serde_urlencoded::(from_bytes|from_str|fr
 
 
 def r5_content_type_gate(ctx):
+    """The content-type gate as a decision table, read off path conditions (lib_c10.path_states) on the normalised view:
+    every path through http_request_load_body carries what it learnt about the two content types — from switches on
+    their discriminants (a tuple match, nested matches, a match on a borrow, `matches!` guards, if-let), from eq / ne
+    tests between them or against a constant variant (also through `!`, named flags, `mem::discriminant`) — which
+    parser sites it went through and whether it returns Ok or Err.  A cell (expected, requested) is compatible with a
+    path when no fact of the path excludes it.  How the tests are nested, ordered, merged or spread over (inlined)
+    helpers, and whether the refusal is `return Err(..)` or an Err value consumed by a later `.map` / `?`, is irrelevant."""
     R = ctx.rule("C10.R5", "for every pair (endpoint's expected content type, request's content type) a TypedBody is built only for (Json,Json) via the JSON parser and "
                  "(UrlEncoded,UrlEncoded) via the urlencoded parser; every other pair returns an error", floor=21)
-    ds = ctx.ds
+    ds = ctx.dsn
     top = ctx.need_fn(ds, R, r"^extractor::body::http_request_load_body$")
     f = ds.body_of(top)
-    adt = ds.adts.get("api_description::ApiEndpointBodyContentType")
+    CT = "api_description::ApiEndpointBodyContentType"
+    adt = ds.adts.get(CT)
     if not adt:
         ctx.lost(R, "enum ApiEndpointBodyContentType")
         return
@@ -421,91 +432,81 @@ def r5_content_type_gate(ctx):
             return "expected"
         if r and not e:
             return "requested"
+        if not e and not r and not sl.callees and not sl.params():
+            vs = set(a[2] for a in sl.atoms if a[0] == "agg" and a[1] == CT)
+            if len(vs) == 1 and not [a for a in sl.atoms if a[0] == "agg" and a[1] != CT]:
+                return ("variant", list(vs)[0])
         return None
 
-    # switches / comparisons on the two discriminants
-    gates = {}
+    # what each switch / comparison says about the two content types
+    switch_facts, atom_facts = {}, {}
     for sbb, st in f.switches():
         info = f.switch_on(sbb)
-        if info["kind"] == "discr" and info.get("adt") == "api_description::ApiEndpointBodyContentType":
+        if info["kind"] == "discr" and info.get("adt") == CT:
             ro = role(info["place"])
-            if ro:
-                gates[sbb] = ("discr", ro)
-        elif info["kind"] == "bool":
-            dbb, kind, node = info["def"]
-            neg = False
-            cur = (kind, node)
-            for _ in range(6):
-                # through `!x` and through let-bound copies of the comparison's result (a named flag)
-                k2, n2 = cur
-                if k2 == "assign" and n2["rv"]["rv"] == "unop" and n2["rv"]["op"] == "Not":
-                    neg = not neg
-                    l = operand_local(n2["rv"]["a"])
-                elif k2 == "assign" and n2["rv"]["rv"] == "use" and not n2["pl"]["p"]:
-                    l = operand_local(n2["rv"]["op"])
-                else:
-                    break
-                dd = f.defs().get(l, []) if l is not None else []
-                if len(dd) != 1:
-                    break
-                cur = (dd[0][1], dd[0][2])
-            k2, n2 = cur
-            if k2 == "call" and (n2.get("callee") or "").endswith(("cmp::PartialEq::eq", "cmp::PartialEq::ne")) and len(n2["args"]) == 2:
-                ra, rb = role(n2["args"][0]), role(n2["args"][1])
-                if {ra, rb} == {"expected", "requested"}:
-                    is_ne = n2["callee"].endswith("::ne")
-                    gates[sbb] = ("eq", is_ne != neg)
-    ctx.check(R, "gate-found", len([g for g in gates.values() if g[0] == "discr" and g[1] == "expected"]) >= 1 or any(g[0] == "eq" for g in gates.values()),
-              "%d switches/comparisons on the expected/requested content-type discriminants" % len(gates), f)
+            if ro in ("expected", "requested"):
+                switch_facts[sbb] = [(ro, edge_variant_sets(f, sbb, info))]
+    for cbb, ct in f.live_calls(r"cmp::PartialEq::(eq|ne)$"):
+        if len(ct["args"]) != 2:
+            continue
+        ra, rb = role(ct["args"][0]), role(ct["args"][1])
+        yes, no = frozenset(["yes"]), frozenset(["no"])
+        if {ra, rb} == {"expected", "requested"}:
+            tv, fv, dim = yes, no, "same"
+        elif isinstance(ra, str) and isinstance(rb, tuple) or isinstance(rb, str) and isinstance(ra, tuple):
+            dim, var = (ra, rb[1]) if isinstance(ra, str) else (rb, ra[1])
+            tv, fv = frozenset([var]), frozenset(variants) - {var}
+        else:
+            continue
+        atom_facts[cbb] = (dim, fv, tv) if ct["callee"].endswith("::ne") else (dim, tv, fv)
+    ngates = len(switch_facts) + len(atom_facts)
+    ctx.check(R, "gate-found", any(d == "expected" for v in switch_facts.values() for d, _ in v) or any(v[0] in ("same", "expected") for v in atom_facts.values()),
+              "%d switches/comparisons on the expected/requested content-type discriminants" % ngates, f)
     json_sites = set(bb for bb, t in f.live_calls(JSON_PARSER))
     url_sites = set(bb for bb, t in f.live_calls(URL_PARSER))
-    okaggs = set()
-    for b, i, s in f.aggregates(r"^std::result::Result$", "Ok"):
-        sl = f.slice(s["rv"]["ops"][0])
-        if any(a[0] == "agg" and a[1].endswith("TypedBody") for a in sl.atoms):
-            okaggs.add(b)
-    ctx.check(R, "sites-found", len(json_sites) == 1 and len(url_sites) == 1 and len(okaggs) >= 1,
-              "JSON parser sites %d, urlencoded parser sites %d, Ok(TypedBody) sites %d" % (len(json_sites), len(url_sites), len(okaggs)), f)
+    typed = set(b for b, i, s in f.aggregates(r"^extractor::body::TypedBody$") if b in f.reachable(0))
+    ctx.check(R, "sites-found", len(json_sites) == 1 and len(url_sites) == 1 and len(typed) >= 1,
+              "JSON parser sites %d, urlencoded parser sites %d, TypedBody literals %d" % (len(json_sites), len(url_sites), len(typed)), f)
     # parsers consume the body bytes
     for nm, sites in (("json", json_sites), ("urlencoded", url_sites)):
         for bb in sites:
             t = f.blocks[bb]["term"]
             sl = f.slice(t["args"][0])
             ctx.check(R, "parser-input-is-the-body:%s" % nm, sl.has_call(r"StreamingBody::into_bytes_mut$"), "parser argument derives from the buffered request body", (f, bb))
-
-    def reach_under(e, r):
-        seen = set()
-        stack = [0]
-        while stack:
-            b = stack.pop()
-            if b in seen:
-                continue
-            seen.add(b)
-            g = gates.get(b)
-            if g is None:
-                nxt = f.succ(b)
-            elif g[0] == "discr":
-                val = e if g[1] == "expected" else r
-                nxt = [f.switch_target(b, val)]
-            else:
-                tb, fb = f.bool_edges(b)
-                truth = (e != r) if g[1] else (e == r)
-                nxt = [tb if truth else fb]
-            stack.extend(x for x in nxt if x is not None)
-        return seen
-
-    for e, en in enumerate(variants):
-        for r, rn in enumerate(variants):
-            reach = reach_under(e, r)
-            gj = bool(json_sites & reach)
-            gu = bool(url_sites & reach)
-            gok = bool(okaggs & reach)
+    marks = {}
+    for bb in json_sites:
+        marks[bb] = "json"
+    for bb in url_sites:
+        marks[bb] = "urlencoded"
+    for bb in typed:
+        marks.setdefault(bb, "typed-body")
+    states = path_states(f, 0, switch_facts=switch_facts, atom_facts=atom_facts, marks=marks)
+    if states is None:
+        ctx.lost(R, "path conditions of http_request_load_body (state budget exceeded)")
+        return
+    ctx.notes["content_type_gate"] = {"path_classes": len(states), "fact_sources": ngates}
+    for en in variants:
+        for rn in variants:
+            cell = {"expected": en, "requested": rn, "same": "yes" if en == rn else "no"}
+            here = [s for s in states if compatible(s["facts"], cell)]
+            gj = any("json" in s["marks"] for s in here)
+            gu = any("urlencoded" in s["marks"] for s in here)
+            accepted = [s for s in here if s["kind"] == "return" and s["result"] != "Err"]
+            gok = bool(accepted)
             wj = en == rn == "Json"
             wu = en == rn == "UrlEncoded"
             wok = wj or wu
-            ctx.check(R, "cell:expected=%s,requested=%s" % (en, rn), (gj, gu, gok) == (wj, wu, wok),
-                      "code: json-parser=%s urlencoded-parser=%s Ok(TypedBody)=%s; spec: %s %s %s" % (gj, gu, gok, wj, wu, wok), f)
-
+            ok = (gj, gu, gok) == (wj, wu, wok)
+            detail = "code: json-parser=%s urlencoded-parser=%s returns-Ok=%s; spec: %s %s %s" % (gj, gu, gok, wj, wu, wok)
+            if ok and wok:
+                want = {"json" if wj else "urlencoded", "typed-body"}
+                stray = [s for s in accepted if not want <= s["marks"]]
+                ok = not stray
+                detail += "; every Ok return went through the %s parser and a TypedBody literal: %s" % ("JSON" if wj else "urlencoded", not stray)
+            site = f
+            if not ok and gok and not wok:
+                site = (f, accepted[0]["bb"])
+            ctx.check(R, "cell:expected=%s,requested=%s" % (en, rn), ok, detail, site)
 
 
 def r6_one_step_decode(ctx):
@@ -733,6 +734,23 @@ DECODE_HELPERS_VARIANT = {"name": "decode-arms-in-generic-helpers", "kind": "ben
                           "why": "behaviour-preserving: the two decode arms move into private generic helpers (one with match instead of map_err); the decoded type is now the "
                                  "helpers' own type parameter and the 400 is built next to the Ok value in the inlined body"}
 
+_B = "dropshot/src/extractor/body.rs"
+# the gate spelled as a match on a borrow of the expected type with `matches!` guards on the requested one
+_GATE_GUARDS = [
+    (_B, "    let content = match (expected_content_type, body_content_type) {\n        (Json, Json) => {",
+     "    let content = match &expected_content_type {\n        Json if matches!(body_content_type, Json) => {"),
+    (_B, "        (UrlEncoded, UrlEncoded) => {", "        UrlEncoded if matches!(body_content_type, UrlEncoded) => {"),
+    (_B, "        (expected, requested) => {\n            return Err(HttpError::for_bad_request(",
+     "        expected => {\n            let requested = &body_content_type;\n            return Err(HttpError::for_bad_request("),
+]
+# the three arms evaluate to a Result (the refusal is an Err *value*, not an early return) that is mapped afterwards
+_GATE_RESULT_VALUE = [
+    (_B, "            })?\n        }\n        (UrlEncoded, UrlEncoded) => {", "            })\n        }\n        (UrlEncoded, UrlEncoded) => {"),
+    (_B, "            })?\n        }\n        (expected, requested) => {\n            return Err(HttpError::for_bad_request(",
+     "            })\n        }\n        (expected, requested) => {\n            Err(HttpError::for_bad_request("),
+]
+_GATE_RESULT_TAIL = "            ))\n        }\n    };\n    Ok(TypedBody { inner: content })"
+
 SELFTEST = [
     {"name": "path-error-500", "kind": "mutant",
      "edits": [("dropshot/src/http_util.rs",
@@ -804,6 +822,22 @@ SELFTEST = [
                ("dropshot/src/extractor/query.rs", "// The `SharedExtractor` implementation for Query<QueryType> describes how to",
                 "fn query_parse_error(e: impl std::fmt::Display) -> HttpError {\n    HttpError::for_bad_request(\n        None,\n        format!(\"unable to parse query string: {}\", e),\n    )\n}\n\n// The `SharedExtractor` implementation for Query<QueryType> describes how to")],
      "why": "behaviour-preserving: the error construction extracted into a helper function"},
+    {"name": "gate-by-guards-on-a-borrow", "kind": "benign", "edits": _GATE_GUARDS,
+     "why": "behaviour-preserving: the tuple match spelled as a match on `&expected` with `matches!(requested, ..)` guards — the same decision table"},
+    {"name": "gate-guard-widened", "kind": "mutant",
+     "edits": _GATE_GUARDS[:1] + [(_B, "        (UrlEncoded, UrlEncoded) => {", "        UrlEncoded if !matches!(body_content_type, Json) => {")] + _GATE_GUARDS[2:],
+     "expect": ["C10.R5"], "why": "(guard idiom) an endpoint expecting urlencoded runs the urlencoded parser on octet-stream and multipart bodies"},
+    {"name": "gate-arms-as-result-values", "kind": "benign",
+     "edits": _GATE_RESULT_VALUE + [(_B, _GATE_RESULT_TAIL, "            ))\n        }\n    };\n    content.map(|inner| TypedBody { inner })")],
+     "why": "behaviour-preserving: the arms evaluate to Result values (the refusal is an Err value) and the TypedBody is built by `.map` after the match"},
+    {"name": "gate-refusal-recovered-after-the-match", "kind": "mutant",
+     "edits": _GATE_RESULT_VALUE + [(_B, _GATE_RESULT_TAIL,
+                                     "            ))\n        }\n    };\n    content\n        .or_else(|_| serde_json::from_slice(&body).map_err(|e| HttpError::for_bad_request(None, e.to_string())))\n"
+                                     "        .map(|inner| TypedBody { inner })")],
+     "expect": ["C10.R5"], "why": "(Result-value idiom) the refusal of a mismatched content type is recovered by `.or_else` into a JSON decode, so every pair can reach the handler"},
+    {"name": "unit-tuple-by-map", "kind": "benign",
+     "edits": [("dropshot/src/extractor/common.rs", "        Ok((X::from_request(rqctx, request).await?,))", "        X::from_request(rqctx, request).await.map(|extracted| (extracted,))")],
+     "why": "behaviour-preserving: `Ok((x?,))` spelled `x.map(|v| (v,))` — the member's error is passed through unchanged"},
     {"name": "query-error-via-map-err", "kind": "benign",
      "edits": [("dropshot/src/extractor/query.rs",
                 "    match serde_urlencoded::from_str(raw_query_string) {\n        Ok(q) => Ok(Query { inner: q }),\n        Err(e) => Err(HttpError::for_bad_request(\n            None,\n            format!(\"unable to parse query string: {}\", e),\n        )),\n    }",
